@@ -320,7 +320,7 @@ def parse(path, include_dir):
             elif d == '@ensures_loop':
                 cur_list = cur_loop.ensures
             elif d == '@insert':
-                m = re.match(r'^(before|after|start|end)(?:\s+(\d+)\s+' + BT + r')?(?:\s*\|\s*([A-Z0-9 ]+))?$', rest)
+                m = re.match(r'^(before|after|inside|start|end)(?:\s+(\d+)\s+' + BT + r')?(?:\s*\|\s*([A-Z0-9 ]+))?$', rest)
                 if not m:
                     raise SpecError('%s:%d bad @insert' % (path, i))
                 cur_insert = Insert(m.group(1), int(m.group(2) or 1), m.group(3), i)
